@@ -117,6 +117,13 @@ pub fn park() {
         std::mem::replace(&mut t.token, false)
     });
     rt::log(EvKind::ParkBegin { token: had });
+    struct Done(usize);
+    impl Drop for Done {
+        fn drop(&mut self) {
+            rt::with(|w| w.tasks.entry(self.0).or_default().parks_done += 1);
+        }
+    }
+    let _done = Done(me);
     if had {
         rt::log(EvKind::ParkEnd { spurious: false });
         return;
